@@ -357,7 +357,7 @@ def e2e_blocks(thorough):
                         continue  # position 0 has no predecessor: state is always 0
                     seq[p] = cur
                     add(tribits_to_bitstring(seq))
-    for sbits in spaces.small_scope_messages(144, weight=2 if thorough else 1,
+    for sbits in spaces.small_scope_messages(144, weight=3 if thorough else 1,
                                              extra=[env.det_bits(f"c10-block-{i}", 144) for i in range(4)]):
         add(sbits)
     return out
@@ -461,7 +461,7 @@ def run(only=None):
     if want("end_to_end_blocks"):
         s = rep.sub("end_to_end_blocks",
                     "blocks = {2 backgrounds x 48 tribit positions x all 64 (previous, current) tribit pairs} + all weight<="
-                    + ("2" if thorough else "1") + " vectors and complements + 0101/1010 + 4 seed blocks (de-duplicated), each as "
+                    + ("3" if thorough else "1") + " vectors and complements + 0101/1010 + 4 seed blocks (de-duplicated), each as "
                     "big-endian bitarray and as bytes, decoded as bits and as bytes: 196 bits out, block back")
         s.declared = len(blocks)
         for acc in par.pmap(w_e2e, [(ch, False) for ch in par.split_list(blocks, 128)], nw):
